@@ -1,11 +1,45 @@
 import Girc.Proofs.InvDelete
+import Girc.Proofs.InvRenameAux
 namespace Girc.Proofs.InvRename
-open Girc Girc.Model Girc.Spec
+open Girc Girc.Model Girc.Spec Girc.Proofs.InvBase
 
 /-- NICK, including onto a nickname that is already tracked, a case-only change, and an empty or
     otherwise odd new nickname. -/
 theorem renameUser_inv (st : St) (from_ to : Bytes) (h : Inv st) :
     ∃ st', st.renameUser from_ to = .ok st' ∧ Inv st' := by
-  sorry
+  unfold St.renameUser St.lookupUser
+  simp only [fold_idem]
+  -- the own-nick update does not touch the maps
+  have hInv : Inv (if fold from_ = fold st.nick then { st with nick := to } else st) := by
+    split
+    · exact inv_of_maps_eq st _ h rfl rfl
+    · exact h
+  generalize (if fold from_ = fold st.nick then { st with nick := to } else st) = s at hInv ⊢
+  cases hl : AMap.get? s.users (fold from_) with
+  | none => exact ⟨s, rfl, hInv⟩
+  | some user =>
+    simp only []
+    by_cases hne : fold to ≠ fold from_
+    · -- a user already known under the new nick is removed first
+      rw [if_pos hne]
+      obtain ⟨s1, hdel, hInv1⟩ := InvDelete.deleteUser_inv s [] to hInv
+      have husers := deleteUser_nil_users hdel
+      have hu1 : AMap.get? s1.users (fold from_) = some user := by
+        rw [husers, if_neg (fun e => hne e.symm)]; exact hl
+      have hfree : AMap.get? s1.users (fold to) = none := by
+        rw [husers, if_pos rfl]
+      obtain ⟨cs', hrun, hL⟩ := rename_tail hInv1 (to := to) hu1 (Or.inr hfree)
+      refine ⟨_, ?_, inv_with_maps s1 hL⟩
+      rw [hdel]
+      show (renameLoop (fold from_) to user.chans s1.channels >>= _) = _
+      rw [hrun]
+      rfl
+    · rw [if_neg hne]
+      have heq : fold to = fold from_ := Classical.not_not.mp hne
+      obtain ⟨cs', hrun, hL⟩ := rename_tail hInv (to := to) hl (Or.inl heq)
+      refine ⟨_, ?_, inv_with_maps s hL⟩
+      show (renameLoop (fold from_) to user.chans s.channels >>= _) = _
+      rw [hrun]
+      rfl
 
 end Girc.Proofs.InvRename
